@@ -181,7 +181,14 @@ func runVacuum(c *Case, id string) {
 	w, err := newWorld(c, 0, epn)
 	defer w.close()
 	defer vclockDrop(w.st.Name)
+	// half of the cases let the statements' write times lag far behind the version clock, so that
+	// cutoffs can purge delete markers while every version is still retained
+	lag := 0
 	vclock := 100
+	if c.Index%2 == 1 {
+		lag = 10000
+		vclock = 20000
+	}
 	tick := func() { vclock += r.Range(1, 6); vclockSet(w.st.Name, vclock) }
 	vclockSet(w.st.Name, vclock)
 	for i := 0; i < nw; i++ {
@@ -200,7 +207,7 @@ func runVacuum(c *Case, id string) {
 	steps := r.Range(8, 30)
 	stmt := func(wi int, kind string, key int, colsv map[string]string) bool {
 		tick()
-		s := HStmt{W: wi, Kind: kind, Key: key, T: vclock, Cols: colsv}
+		s := HStmt{W: wi, Kind: kind, Key: key, T: vclock - lag, Cols: colsv}
 		if _, err := w.exec(s); err != nil {
 			fail("statement-error", err.Error())
 			return false
@@ -287,9 +294,9 @@ func runVacuum(c *Case, id string) {
 		for kk := 1; kk <= nkeys; kk++ {
 			if r.Intn(4) == 0 {
 				tick()
-				s, err := w.exec(HStmt{W: 0, Kind: "del", Key: kk, T: vclock})
+				s, err := w.exec(HStmt{W: 0, Kind: "del", Key: kk, T: vclock - lag})
 				if err == nil && s.Accepted {
-					lateDeleted[kk] = vclock
+					lateDeleted[kk] = vclock - lag
 				}
 			}
 		}
@@ -625,6 +632,11 @@ func runVacuum(c *Case, id string) {
 			B := w.ws[1]
 			n := 0
 			for kk, td := range lateDeleted {
+				if td < cutoff {
+					// deleted before the cutoff: the marker is purged and a late merge may bring the row back
+					delete(lateDeleted, kk)
+					continue
+				}
 				// B has not seen the delete; its update is stamped older than the delete
 				if err := B.conn.SetWriteTime(td - 1); err != nil {
 					continue
@@ -668,7 +680,7 @@ func runVacuum(c *Case, id string) {
 		tick()
 		wi := r.Intn(nw)
 		hw := w.ws[wi]
-		hw.conn.SetWriteTime(vclock)
+		hw.conn.SetWriteTime(vclock - lag)
 		if err := hw.conn.Exec(fmt.Sprintf("insert into %s(k,a) values (%d,'after-vacuum')", hw.table, 5000+c.Index)); err != nil {
 			fail("write-after-vacuum", "a write after the vacuum failed: "+err.Error())
 			return
@@ -679,6 +691,67 @@ func runVacuum(c *Case, id string) {
 		}
 		if !retainedOK(w.st.Snapshot(), "after a later write", nil) {
 			return
+		}
+		// one more vacuum, now with nothing left to purge and a cutoff after everything: it
+		// reclaims all superseded versions while the current one may share nodes with them
+		{
+			// synchronise first: vacuuming next to an unmerged fork is documented as unsafe
+			for round := 0; round < 2; round++ {
+				for j := 0; j < nw; j++ {
+					tick()
+					w.refresh(j)
+				}
+			}
+			tick()
+			w.refresh(0)
+			if lag > 0 && c.Res.Status != "violated" {
+				// the table returns to the content of a version that is still retained: insert a
+				// fresh key, delete it, purge its marker with a cutoff older than every version
+				tick()
+				kx := 9000 + c.Index
+				if stmt(0, "ins", kx, map[string]string{"a": "t:transient"}) && stmt(0, "del", kx, nil) {
+					cut := vclock - lag + 1
+					res, err := A.conn.Rows("select vacuum_error from s3db_vacuum('"+A.table+"', ?)", tstr(cut))
+					w.logf("w0 VACUUM purging only the transient key, cutoff @%d -> %v %v", cut, res, err)
+					c.Count("purge_only_vacuums", 1)
+					if err != nil || len(res) != 1 || res[0] != "NULL" {
+						fail("vacuum-error", fmt.Sprintf("s3db_vacuum reported %v %v", res, err))
+						return
+					}
+				}
+			}
+			tick()
+			before, err := A.conn.Dump(A.table)
+			if err == nil {
+				res, err := A.conn.Rows("select vacuum_error from s3db_vacuum('"+A.table+"', ?)", tstr(vclock+1000))
+				w.logf("w0 FINAL VACUUM cutoff after everything -> %v %v", res, err)
+				c.Count("final_vacuums", 1)
+				if err != nil || len(res) != 1 || res[0] != "NULL" {
+					fail("vacuum-error", fmt.Sprintf("final s3db_vacuum reported %v %v", res, err))
+					return
+				}
+				after, err := A.conn.Dump(A.table)
+				if err != nil {
+					fail("unreadable-after-vacuum:same-connection", "after the final vacuum the vacuuming connection cannot read the table: "+err.Error())
+					return
+				}
+				if d := firstDiff(before, after); d != "" {
+					fail("rows-changed:same-connection", "rows through the vacuuming connection changed across the final vacuum: "+d)
+					return
+				}
+				fd, err := w.freshDump(true, "fresh-after-final-vacuum")
+				if err != nil {
+					fail("unreadable-after-vacuum:fresh", "a fresh connection cannot read the table after the final vacuum: "+err.Error())
+					return
+				}
+				if d := firstDiff(before, fd); d != "" {
+					fail("rows-changed:fresh", "rows through a fresh connection differ after the final vacuum: "+d)
+					return
+				}
+				if !retainedOK(w.st.Snapshot(), "after the final vacuum", nil) {
+					return
+				}
+			}
 		}
 		if c.Index%3 == 0 && muts > 0 && muts <= 60 {
 			c.Count("crash_sweeps", 1)
